@@ -3,9 +3,11 @@
 package props
 
 import (
+	"fmt"
 	"go/constant"
 	"go/token"
 	"go/types"
+	"sort"
 
 	"ndndcheck/core"
 
@@ -230,4 +232,81 @@ func lookupConst(p *core.Prog, pkg, name string) (int64, bool) {
 		return 0, false
 	}
 	return constInt64(o)
+}
+
+// recordBranchAgreement: a find-or-create function that returns a record either freshly
+// built or updated in place must write, before every return, each field of the record
+// that it writes before any other return (sibling branches of one operation agree);
+// fields set from the lookup key are identity, not state, and are exempt.
+func recordBranchAgreement(c *core.Ctx, rule string, fn *ssa.Function, recType string, keyParam ssa.Value, why map[string]string, only ...string) {
+	p := c.P
+	fname := core.FuncName(fn)
+	type st struct {
+		in   ssa.Instruction
+		base ssa.Value
+	}
+	fields := map[string][]st{}
+	core.Instrs(fn, func(in ssa.Instruction) {
+		s, ok := in.(*ssa.Store)
+		if !ok {
+			return
+		}
+		fa, ok := s.Addr.(*ssa.FieldAddr)
+		if !ok {
+			return
+		}
+		t, f := core.FieldAddrName(fa)
+		if t != recType {
+			return
+		}
+		if keyParam != nil && core.StripConv(s.Val) == keyParam {
+			return
+		}
+		fields[f] = append(fields[f], st{in, fa.X})
+	})
+	var rets []*ssa.Return
+	core.Instrs(fn, func(in ssa.Instruction) {
+		if r, ok := in.(*ssa.Return); ok && len(r.Results) > 0 {
+			rets = append(rets, r)
+		}
+	})
+	c.Floor(rule, "record fields written by "+fname, len(fields), 3)
+	c.Floor(rule, "returns of "+fname, len(rets), 2)
+	var names []string
+	for f := range fields {
+		names = append(names, f)
+	}
+	sort.Strings(names)
+	for _, f := range names {
+		if len(only) > 0 {
+			keep := false
+			for _, o := range only {
+				if o == f {
+					keep = true
+				}
+			}
+			if !keep {
+				continue
+			}
+		}
+		missing := 0
+		for _, r := range rets {
+			rec := r.Results[0]
+			if !core.Precedes(fn, r, func(x ssa.Instruction) bool {
+				for _, s := range fields[f] {
+					if s.in == x && core.Same(s.base, rec) {
+						return true
+					}
+				}
+				return false
+			}) {
+				missing++
+			}
+		}
+		msg := why[f]
+		if msg == "" {
+			msg = "later decisions read a stale value"
+		}
+		c.Decide(missing == 0, rule, "record-branches-agree:"+fn.Name()+":"+f, p.Pos(fn.Pos()), "every return is preceded by a store of "+recType+"."+f, fmt.Sprintf("%s writes %s.%s when it creates a record but not on every path that updates an existing one (or vice versa; %d return(s) without it): %s", fname, recType, f, missing, msg))
+	}
 }
